@@ -31,8 +31,10 @@ import (
 	"fmt"
 	"math"
 	"math/rand"
+	"runtime"
 	"strings"
 	"sync"
+	"sync/atomic"
 	"time"
 
 	"tunnox-core/internal/cloud/models"
@@ -86,13 +88,21 @@ type step struct {
 	A string `json:"a"`
 	N string `json:"n"`
 	T string `json:"t"`
+	// where the mapping's target client has its control connection when the source end registers
+	// (site mode): same node | other node | none
+	Loc string `json:"loc,omitempty"`
 }
 
 type behaviour struct {
 	Be    string `json:"be"`
-	Mode  string `json:"mode"` // direct | site
+	Mode  string `json:"mode"` // direct | site | gated | race
 	Cls   string `json:"cls"`  // value class used for every registration of this behaviour
-	Steps []step `json:"steps"`
+	Steps []step `json:"steps,omitempty"`
+	// PerMs > 0: waiting period in milliseconds of a "virtual time" behaviour (Redis-backed wirings
+	// only): 2 model ticks; a tick fast-forwards miniredis by PerMs-100 and does not sleep, so the
+	// first tick after a registration is a lookup shortly before the period ends
+	PerMs int `json:"perMs,omitempty"`
+	Rep   int `json:"rep,omitempty"`
 }
 
 // ---- value generator -------------------------------------------------------------------------
@@ -233,6 +243,8 @@ type world struct {
 	mapOf  map[string]string // site mode: model tunnel -> mapping id of its latest registration
 	rng    *rand.Rand
 	cancel context.CancelFunc
+	period time.Duration
+	nTgt   int
 
 	// gated mode
 	sch      *sched.Sched
@@ -296,8 +308,12 @@ func newWorld(env *fw.Env, b fw.Behaviour, beh behaviour) (*world, error) {
 			return ""
 		}
 	}
+	wd.period = period
+	if beh.PerMs > 0 {
+		wd.period = time.Duration(beh.PerMs) * time.Millisecond
+	}
 	for _, n := range nodes {
-		wd.rt[n] = session.NewTunnelRoutingTable(w.Stores[n], period)
+		wd.rt[n] = session.NewTunnelRoutingTable(w.Stores[n], wd.period)
 		if beh.Mode == "site" || beh.Mode == "gated" {
 			s, err := srvkit.NewServer(srvkit.Options{NodeID: "node-" + n, HeartbeatTimeout: time.Hour, CleanupInterval: time.Hour, NoConnState: true})
 			if err != nil {
@@ -334,7 +350,7 @@ func (wd *world) lookup(m, t string) fw.Event {
 		if got != want {
 			ev["diff"] = diff(got, want)
 		}
-		ev["life"] = st.ExpiresAt.Sub(st.CreatedAt) == period
+		ev["life"] = st.ExpiresAt.Sub(st.CreatedAt) == wd.period
 		a, aerr := wd.rt[m].GetNodeAddress(st.SourceNodeID)
 		ev["addrOk"] = aerr == nil && a != "" && a == wd.addrs[strings.TrimPrefix(st.SourceNodeID, "node-")]
 	case errors.Is(err, session.ErrTunnelNotFound):
@@ -381,13 +397,46 @@ func short(s string) string {
 	return s
 }
 
-func (wd *world) register(n, t string) (fw.Event, *fw.Trace) {
+func (wd *world) register(n, t, loc string) (fw.Event, *fw.Trace) {
 	ev := fw.Event{"ev": "Register", "n": n, "t": t, "cls": wd.beh.Cls, "period": 1}
+	if wd.beh.PerMs > 0 {
+		ev["period"], ev["cls"] = 2, fmt.Sprintf("%s:period=%gs", wd.beh.Cls, float64(wd.beh.PerMs)/1000)
+	}
 	ctx := context.Background()
 	if wd.beh.Mode == "site" {
 		f := genFields(wd.rng, wd.beh.Cls, "")
 		if f.MappingID == "" { // StartServerTunnel needs a mapping to look up; ids are never empty in the cloud
 			f.MappingID = "m-" + t
+		}
+		var notified chan struct{}
+		if loc == "same" || loc == "other" {
+			// the mapping's target client holds an authenticated control connection on the source
+			// node / on another node when the source end registers (a real first-connect handshake)
+			tn := n
+			if loc == "other" {
+				for _, m := range wd.nodes {
+					if m != n {
+						tn = m
+						break
+					}
+				}
+			}
+			wd.nTgt++
+			c, err := wd.srv[tn].NewConn(fmt.Sprintf("10.7.%d.%d", wd.nTgt/250, 1+wd.nTgt%250))
+			if err != nil {
+				return nil, &fw.Trace{Status: fw.DriverError, Note: "target control connection: " + err.Error()}
+			}
+			id, _, _, err := c.FirstConnect("control")
+			if err != nil || id == 0 || wd.srv[tn].SM.GetControlConnectionByClientID(id) == nil {
+				return nil, &fw.Trace{Status: fw.DriverError, Note: fmt.Sprintf("target control connection on %s not established (id=%d err=%v)", tn, id, err)}
+			}
+			f.TargetClientID = id
+			ev["cls"] = wd.beh.Cls + ":target=" + loc
+			if loc == "same" {
+				c.Drain()
+				notified = make(chan struct{})
+				c.T.AfterNextPacket(func() { close(notified) })
+			}
 		}
 		wd.cloud[n].mu.Lock()
 		wd.cloud[n].m[f.MappingID] = &models.PortMapping{ID: f.MappingID, ListenClientID: f.SourceClientID, TargetClientID: f.TargetClientID,
@@ -400,6 +449,14 @@ func (wd *world) register(n, t string) (fw.Event, *fw.Trace) {
 		f.TunnelID = id
 		wd.ids[t], wd.want[t], wd.mapOf[t] = id, f, f.MappingID
 		ev["ok"] = true
+		if notified != nil {
+			// startSourceBridge notifies the local target client asynchronously (a command written to
+			// its control connection): let that write finish, the teardown must not cut into it
+			select {
+			case <-notified:
+			case <-time.After(time.Second):
+			}
+		}
 		return ev, nil
 	}
 	if _, ok := wd.ids[t]; !ok {
@@ -443,6 +500,99 @@ func (wd *world) remove(n, t string) (fw.Event, *fw.Trace) {
 		ev["err"] = short(err.Error())
 	}
 	return ev, nil
+}
+
+// ---- race rounds: re-registration of an id against lookups that meet its lapsed record ----------
+
+// raceRounds repeats, for a time box: (1) register the id with a waiting period of 100 us and let it
+// lapse - the entry stays under the key (nothing sweeps it); (2) release together, by a spin
+// barrier, three lookups of the id on node B and its re-registration on node A (period 1 h);
+// (3) when all have returned, the id must resolve, from every node, to the new record; (4) remove.
+// Lookups are read-only: whatever they saw, they must not take the new record away.  The trace is
+// the last round (or the first failing one): Register, then a lookup from every node.
+func (wd *world) raceRounds(env *fw.Env, t *fw.Trace) *fw.Trace {
+	box := 250 * time.Millisecond
+	if env.Tier == "thorough" {
+		box = 1500 * time.Millisecond
+	}
+	ctx := context.Background()
+	for _, n := range wd.nodes {
+		addr := fmt.Sprintf("10.0.0.%d:50052", 1+len(wd.addrs))
+		err := wd.rt[n].RegisterNodeAddress("node-"+n, addr)
+		wd.addrs[n] = addr
+		t.Events = append(t.Events, fw.Event{"ev": "Announce", "n": n, "ok": err == nil})
+	}
+	short := session.NewTunnelRoutingTable(wd.w.Stores["A"], 100*time.Microsecond)
+	long := session.NewTunnelRoutingTable(wd.w.Stores["A"], time.Hour)
+	look := session.NewTunnelRoutingTable(wd.w.Stores["B"], time.Hour)
+	id := genTunnelID(wd.rng, "ascii", "t1")
+	wd.ids["t1"] = id
+	mk := func(f fields) *session.TunnelWaitingState {
+		return &session.TunnelWaitingState{TunnelID: f.TunnelID, MappingID: f.MappingID, SecretKey: f.SecretKey, SourceNodeID: "node-A",
+			SourceClientID: f.SourceClientID, TargetClientID: f.TargetClientID, TargetHost: f.TargetHost, TargetPort: f.TargetPort}
+	}
+	// persistent racers released together by a generation counter (spin barrier): racer 0
+	// re-registers (after a per-round delay of a few hundred nanoseconds, so that the lookups'
+	// reads of the lapsed entry tend to come first), the others look the id up on node B
+	const racers = 6
+	var gen, done, spin atomic.Int64
+	var cur atomic.Pointer[fields]
+	var regErr error
+	stop := false
+	for i := 0; i < racers; i++ {
+		go func(i int) {
+			last := int64(0)
+			for {
+				for gen.Load() == last {
+					runtime.Gosched()
+				}
+				last = gen.Load()
+				if stop {
+					return
+				}
+				if i == 0 {
+					for j := 0; j < (int(last)%16)*30; j++ {
+						spin.Add(1)
+					}
+					regErr = long.RegisterWaitingTunnel(ctx, mk(*cur.Load()))
+				} else {
+					look.LookupWaitingTunnel(ctx, id)
+				}
+				done.Add(1)
+			}
+		}(i)
+	}
+	deadline := time.Now().Add(box)
+	rounds := 0
+	var last []fw.Event
+	for time.Now().Before(deadline) {
+		rounds++
+		if err := short.RegisterWaitingTunnel(ctx, mk(genFields(wd.rng, "ascii", id))); err != nil {
+			return &fw.Trace{Status: fw.DriverError, Note: "race: " + err.Error()}
+		}
+		for t0 := time.Now(); time.Since(t0) < 300*time.Microsecond; {
+		}
+		f := genFields(wd.rng, "ascii", id)
+		cur.Store(&f)
+		done.Store(0)
+		gen.Add(1)
+		for done.Load() < racers {
+			runtime.Gosched()
+		}
+		wd.want["t1"] = f
+		reg := fw.Event{"ev": "Register", "n": "A", "t": "t1", "cls": "reregister-race", "period": 1, "ok": regErr == nil}
+		la, lb := wd.lookup("A", "t1"), wd.lookup("B", "t1")
+		last = []fw.Event{reg, la, lb}
+		if la["r"] != "found" || lb["r"] != "found" || la["fieldsEqual"] != true || lb["fieldsEqual"] != true {
+			break
+		}
+		long.RemoveWaitingTunnel(ctx, id)
+	}
+	stop = true
+	gen.Add(1)
+	t.Events[0]["rounds"] = rounds
+	t.Events = append(t.Events, last...)
+	return t
 }
 
 // ---- gated mode: the call sites step by step --------------------------------------------------
@@ -579,6 +729,9 @@ func drive(env *fw.Env, b fw.Behaviour) *fw.Trace {
 	defer wd.Close()
 	t := &fw.Trace{Status: fw.Realised}
 	t.Events = append(t.Events, fw.Event{"ev": "Cfg", "be": beh.Be, "mode": beh.Mode})
+	if beh.Mode == "race" {
+		return wd.raceRounds(env, t)
+	}
 	seg := time.Now()
 	var waitedSeg time.Duration
 	over := func() *fw.Trace {
@@ -616,6 +769,13 @@ func drive(env *fw.Env, b fw.Behaviour) *fw.Trace {
 			t.Events = append(t.Events, evs...)
 			continue
 		case "Tick":
+			if beh.PerMs > 0 {
+				// virtual time only: Redis key lifetimes move, the wall clock (ExpiresAt) practically does not
+				wd.w.Advance(wd.period - 100*time.Millisecond)
+				seg, waitedSeg = time.Now(), 0
+				t.Events = append(t.Events, fw.Event{"ev": "Tick"})
+				continue
+			}
 			if tr := over(); tr != nil {
 				return tr
 			}
@@ -629,7 +789,7 @@ func drive(env *fw.Env, b fw.Behaviour) *fw.Trace {
 			wd.addrs[s.N] = addr
 			ev = fw.Event{"ev": "Announce", "n": s.N, "ok": err == nil}
 		case "Register":
-			ev, bad = wd.register(s.N, s.T)
+			ev, bad = wd.register(s.N, s.T, s.Loc)
 		case "Lookup":
 			ev = wd.lookup(s.N, s.T)
 		case "Remove":
@@ -654,12 +814,20 @@ func drive(env *fw.Env, b fw.Behaviour) *fw.Trace {
 // ---- jobs ---------------------------------------------------------------------------------------
 
 func mcJob(name, nodes, tunnels string, ttl, maxReg int, mode string, lifecycleFirst bool) fw.TLCJob {
-	lf, invs := "FALSE", "LookupGone NoDev"
+	lf, invs := "FALSE", "LookupExact LookupGone NoDev LookupPure"
 	if lifecycleFirst {
-		lf, invs = "TRUE", "LookupGoneOrDev"
+		lf, invs = "TRUE", "LookupExact LookupGoneOrDev"
 	}
 	return fw.TLCJob{Name: name, Module: "Routing", Cfg: "Routing_mc.cfg", Workers: 4, Consts: map[string]string{
-		"NODES": nodes, "TUNNELS": tunnels, "TTL": fmt.Sprint(ttl), "MAXREG": fmt.Sprint(maxReg), "MODE": mode, "LF": lf, "INVS": invs}}
+		"NODES": nodes, "TUNNELS": tunnels, "TTL": fmt.Sprint(ttl), "MAXREG": fmt.Sprint(maxReg), "MODE": mode, "LF": lf,
+		"SKIP": "FALSE", "EVICT": "FALSE", "INVS": invs}}
+}
+
+// altDesign checks one of the other designs: its only routes to a violation are its named deviation
+func altDesign(name, which string) fw.TLCJob {
+	j := mcJob(name, `{"A", "B"}`, `{"t1", "t2"}`, 1, 2, "atomic", false)
+	j.Consts[which], j.Consts["INVS"] = "TRUE", "LookupExactOrDev LookupGoneOrDev"
+	return j
 }
 
 func genJob(name, nodes, tunnels string, maxReg, maxClock, maxHist int, mode string, lifecycleFirst bool, only string) fw.TLCJob {
@@ -667,9 +835,13 @@ func genJob(name, nodes, tunnels string, maxReg, maxClock, maxHist int, mode str
 	if lifecycleFirst {
 		lf = "TRUE"
 	}
+	ttl := "1"
+	if name == "gen:ttl2" {
+		ttl = "2"
+	}
 	return fw.TLCJob{Name: name, Module: "Routing", Cfg: "Routing_gen.cfg", Workers: 1, Consts: map[string]string{
 		"NODES": nodes, "TUNNELS": tunnels, "MAXREG": fmt.Sprint(maxReg), "MAXCLOCK": fmt.Sprint(maxClock), "MAXHIST": fmt.Sprint(maxHist),
-		"MODE": mode, "LF": lf, "ONLY": only}}
+		"MODE": mode, "LF": lf, "ONLY": only, "TTL": ttl}}
 }
 
 // altSrc generates the schedules of the OTHER design - the bridge lifecycle started before the
@@ -680,6 +852,16 @@ func genJob(name, nodes, tunnels string, maxReg, maxClock, maxHist int, mode str
 const altSrc = "legacy-alt:lifecycle-first"
 
 var seenBeh = map[string]bool{}
+
+func stripLoc(steps []step) []step {
+	out := make([]step, len(steps))
+	for i, s := range steps {
+		s.Loc = ""
+		out[i] = s
+	}
+	return out
+}
+
 var expandN int
 
 func main() {
@@ -692,6 +874,8 @@ func main() {
 				mcJob("mc:atomic:2n2t", ab, t2, 1, 2, "atomic", false),
 				mcJob("mc:split:2n2t", ab, t2, 1, 2, "split", false),
 				mcJob("mc:split:lifecycle-first", ab, t2, 1, 2, "split", true),
+				altDesign("mc:skip-local-target", "SKIP"),
+				altDesign("mc:evicting-lookup", "EVICT"),
 			}
 			if env.Tier == "thorough" {
 				jobs = append(jobs,
@@ -710,12 +894,14 @@ func main() {
 					genJob("gen:3n2t", `{"A", "B", "C"}`, t2, 2, 2, 9, "atomic", false, "all"),
 					genJob("gen:split", ab, t2, 2, 2, 9, "split", false, "all"),
 					genJob(altSrc, ab, t2, 2, 2, 9, "split", true, "dev"),
+					genJob("gen:ttl2", ab, t2, 2, 3, 9, "atomic", false, "all"),
 				}
 			}
 			return []fw.TLCJob{
 				genJob("gen:2n2t", ab, t2, 2, 2, 9, "atomic", false, "all"),
 				genJob("gen:split", ab, t1, 2, 2, 9, "split", false, "all"),
 				genJob(altSrc, ab, t1, 2, 2, 9, "split", true, "dev"),
+				genJob("gen:ttl2", ab, t1, 2, 3, 8, "atomic", false, "all"),
 			}
 		},
 		MaxBehSrc: func(env *fw.Env, src string) int {
@@ -726,6 +912,8 @@ func main() {
 				return 1000
 			case src == "gen:split":
 				return 90
+			case src == "gen:ttl2":
+				return 60
 			case src == altSrc:
 				return 54
 			}
@@ -737,10 +925,10 @@ func main() {
 				panic(err)
 			}
 			key := string(fw.MustJSON(steps))
-			if seenBeh[key] {
+			if seenBeh[src+key] {
 				return nil
 			}
-			seenBeh[key] = true
+			seenBeh[src+key] = true
 			look := false
 			for _, s := range steps {
 				look = look || s.A == "Lookup"
@@ -781,8 +969,24 @@ func main() {
 			var out []json.RawMessage
 			k := expandN // every wiring meets every value class as k runs over the behaviours
 			expandN++
-			for i, be := range wire.Names {
-				out = append(out, fw.MustJSON(behaviour{Be: be, Mode: "direct", Cls: classes[(k+2*i)%len(classes)], Steps: steps}))
+			if src == "gen:ttl2" {
+				// waiting periods that are not whole seconds, in virtual time, on the Redis-backed wirings
+				for i, be := range []string{"redis", "tiered"} {
+					cls := classes[(k+2*i)%len(classes)]
+					if cls == "big" {
+						cls = "ascii"
+					}
+					out = append(out, fw.MustJSON(behaviour{Be: be, Mode: "direct", Cls: cls, Steps: stripLoc(steps), PerMs: []int{1500, 2500}[(k+i)%2]}))
+				}
+				return out
+			}
+			// the RoutingTable API does not know the target's whereabouts: one direct realisation per
+			// history whatever the loc fields say
+			if dk := "direct" + string(fw.MustJSON(stripLoc(steps))); !seenBeh[dk] {
+				seenBeh[dk] = true
+				for i, be := range wire.Names {
+					out = append(out, fw.MustJSON(behaviour{Be: be, Mode: "direct", Cls: classes[(k+2*i)%len(classes)], Steps: stripLoc(steps)}))
+				}
 			}
 			// one realisation through the real call sites, wiring rotating; the 64 KiB class is left to direct mode
 			cls := classes[(k/len(wire.Names)+3)%len(classes)]
@@ -790,6 +994,18 @@ func main() {
 				cls = "mixed"
 			}
 			out = append(out, fw.MustJSON(behaviour{Be: wire.Names[k%len(wire.Names)], Mode: "site", Cls: cls, Steps: steps}))
+			return out
+		},
+		ExtraBeh: func(env *fw.Env) []json.RawMessage {
+			// re-registration races on the memory wiring (driver-made rounds, see raceRounds)
+			n := 6
+			if env.Tier == "thorough" {
+				n = 16
+			}
+			var out []json.RawMessage
+			for i := 0; i < n; i++ {
+				out = append(out, fw.MustJSON(behaviour{Be: "memory", Mode: "race", Cls: "reregister-race", Rep: i + 1}))
+			}
 			return out
 		},
 		SelfTest:    selfTest,
@@ -810,6 +1026,9 @@ func main() {
 			"waiting period 400 ms = 1 model tick; a tick sleeps 600 ms; behaviours whose register..lookup segment took more than 130 ms are discarded as inconclusive",
 			"miniredis stands in for Redis; its virtual clock is advanced together with the real sleep",
 			"gated mode: the SessionManager's RoutingTable writes and deletes routing records through a scheduler gate in front of the node's storage; the tunnel is ended by closing the real bridge; a removal issued while the write is parked is let through first (Diverged, judged)",
+			"site mode places the mapping's target client (a real first-connect control connection) on the source node, on another node or nowhere before the source end registers",
+			"waiting periods of 1.5 s and 2.5 s run in virtual time on the Redis-backed wirings (miniredis fast-forward to 100 ms before the end, no sleep): the wall-clock ExpiresAt does not lapse there, only the store's own key lifetime is exercised",
+			"re-registration races (memory wiring): time-boxed rounds of three lookups and one re-registration of an id whose previous record has lapsed unswept, released by a spin barrier; only the lookups made after all four returned are judged",
 			"nodes are RoutingTable instances (site mode: srvkit SessionManagers with a cloud-control stub supplying the port mapping) of one process over one shared store",
 			"field values are generated (seeded), not exhaustive; strings are valid UTF-8 as every field arrives through JSON decoding in production",
 		},
